@@ -5,7 +5,10 @@ A hostile BODY (gen/hostile.py) is placed as
       with a separating non-list block -- directly after a list a 4-space block is a list-item continuation, not code),
       inside list items (8 spaces, also after a continuation paragraph, ordered/unordered, nested), inside block quotes
       (`>     code`, lazy `    code` lines, `>` or truly blank separator lines), and compositions of these to depth 3;
-  (b) a fenced block (extension fenced_code; ``` / ~~~, length 3..5, with / without language), top level;
+      directly under a horizontal rule without a blank line (`***\n    code`; top level, in quotes and items); directly under a `#` heading
+      that starts a tight list item (`- # h\n        code`); directly under the last line of a raw HTML block (no blank line);
+  (b) a fenced block (extension fenced_code; ``` / ~~~, length 3..5, with / without language), top level; the body may contain a line
+      made only of fence characters that is LONGER than the fence (it does not close the block);
   (c) a backtick span (1..4 ticks, a length for which the body has no tick run of exactly that length; padded with a
       space when the body starts/ends with a tick; body not blank) inside paragraph text, ATX / Setext headings, emphasis /
       strong, link text, list items, block quotes; neighbours in the same block are tick-free markup that does not end in
@@ -13,7 +16,8 @@ A hostile BODY (gen/hostile.py) is placed as
       starts with block syntax -- `#`, `>`, `---`, `===`, `[x]: y`, `<div>`, `<!--` -- is cut off by the BLOCK parser /
       raw-HTML extractor before any span exists: block structure has precedence; this is not "text placed in a span").
 The surrounding document (gen/docs.py blocks, with code of its own, optionally inline HTML/entities, a closed raw HTML block)
-is varied; each case runs with or without fenced_code.
+is varied; each case runs with or without fenced_code.  With fenced_code on, a quarter of the documents end with a REAL backtick-fenced block
+at the left margin, and then a line of our code (block or multi-line span) often ends in a backtick run (a fence opens at a line start only).
 
 How it is evaluated: the document is converted twice, with the hostile body and with the placebo body `QZQZ`.  The
 placebo run tells which `<code>` element is ours (exactly one element must have the text `QZQZ`; otherwise the
@@ -194,8 +198,9 @@ def span_in_text(rng, body, fence, html, fenced_on):
     wrap = rng.choice(['none'] * 4 + ['em*', 'em_', 'strong*', 'strong_', 'link', 'link_t', 'em_link'])
     if wrap in ('link', 'link_t', 'em_link'): pre = pre.rstrip('!')      # `![..](..)` is an image: its alt text is not link text
     if fenced_on and len(fence) >= 3 and not pre: pre = 'w '
-    if ']:' in body and (pre + ('[' if wrap in ('link', 'link_t') else 'x')).lstrip().startswith('['):
+    if ']:' in body and re.sub(r'^(?:\s*(?:[-+*>#]+|\d+\.))*\s*', '', pre + ('[' if wrap in ('link', 'link_t') else 'x')).startswith('['):
         pre = 'w ' + pre                           # a line `[...]: ...` is a reference DEFINITION (block level), not a paragraph with a span
+        #                                            (also behind list / quote / heading markers of the neighbour text: `- [ ``x]: y`` (u)`)
     if '\n' in body: pre = pre.replace('#', '')   # an ATX heading (also inside `> 1. # x`) takes one line only: it would cut a multi-line span
 
     def frame(b):
@@ -274,23 +279,39 @@ def wrap_item(rng, text):
     return pre_items + marker + lead + mid + '\n\n' + docs.indent(text, 4)
 
 
+def wrap_head_item(rng, text):
+    """a TIGHT list item whose text starts with a `#` heading, the code (8 columns) on the line(s) directly below it: the lines after
+    the heading are re-queued by HashHeaderProcessor inside the item (state `list`) and detabbed ONCE by ListIndentProcessor"""
+    marker = rng.choice(['- ', '* ', '+ ', '1. ', '7. '])
+    head = rng.choice(['# Usage', '## Step ##', '###### h', '# *e* h', '#x'])
+    pre_items = rng.choice(['', '', marker + 'zero\n'])
+    return pre_items + marker + head + '\n' + docs.indent(text, 4)
+
+
 def place_block(rng):
     """-> (maker body->block source, label, in_list)"""
-    chain = rng.choice([[], [], [], ['q'], ['q'], ['i'], ['i'], ['i', 'i'], ['q', 'q'], ['q', 'i'], ['i', 'q'], ['q', 'i', 'q'], ['i', 'q', 'i']])
+    chain = rng.choice([[], [], [], ['q'], ['q'], ['i'], ['i'], ['i', 'i'], ['q', 'q'], ['q', 'i'], ['i', 'q'], ['q', 'i', 'q'], ['i', 'q', 'i'],
+                        ['h'], ['h', 'q'], ['h', 'i']])
     seeds = [rng.getrandbits(32) for _ in chain]
     import random as _r
     list_exposed = False
     for w in chain:                      # innermost first: a list wrapper before any quote wrapper sees the blank lines
         if w == 'q': break
-        if w == 'i': list_exposed = True; break
+        if w in 'ih': list_exposed = True; break
+    # the code directly under a horizontal rule, no blank line between (HRProcessor re-queues the lines after the rule): at top
+    # level, inside quotes and list items
+    rule_led = 'h' not in chain and rng.random() < 0.12
+    R = docs.rule(rng)
 
     def make(b):
         t = docs.indent(b, 4)
+        if rule_led: t = R + '\n' + t
         for k, (w, s) in enumerate(zip(chain, seeds)):
             r = _r.Random(s)
-            t = wrap_quote(r, t, truly_blank_ok=True, innermost=(k == 0)) if w == 'q' else wrap_item(r, t)
+            t = (wrap_quote(r, t, truly_blank_ok=True, innermost=(k == 0 and not rule_led)) if w == 'q' else wrap_head_item(r, t) if w == 'h'
+                 else wrap_item(r, t))
         return t
-    return make, 'block/' + (''.join(chain) or 'top'), list_exposed, chain
+    return make, 'block/' + (''.join(chain) or 'top') + ('/under-rule' if rule_led else ''), list_exposed, chain
 
 
 def place_fenced(rng, body):
@@ -324,14 +345,26 @@ def gen_case(rng):
     html = rng.random() < 0.4
     before, after = surroundings(rng, html)
     in_list = False
+    # with fenced_code: a REAL backtick-fenced block at the left margin later in the document (its opening line must not pair with a
+    # backtick run that stands in the middle of an earlier line, e.g. inside our code)
+    real_fence = fenced_on and rng.random() < 0.25
+    tick_tail = real_fence and kind != 'fenced' and rng.random() < 0.6
     if kind == 'span':
         body = span_body(rng)
+        if tick_tail and '\n' in body:          # a line of the span that ENDS in a tick run (not the last line: the span's own fence follows it)
+            ls = body.split('\n'); i = rng.randrange(len(ls) - 1)
+            ls[i] = ls[i].rstrip(' `') + rng.choice([' ```', '```', ' ````', ' ```py'])
+            body = '\n'.join(ls)
         if not body.strip(): body = 'a' + body
         fence = tick_fence(rng, body)
         if fence is None: return None
         make, label = place_span(rng, body, fence, html, fenced_on)
     elif kind == 'block':
         body = block_body(rng)
+        if tick_tail:
+            ls = body.split('\n'); i = rng.randrange(len(ls))
+            if ls[i].strip(' '): ls[i] = ls[i].rstrip(' ') + rng.choice([' ```', '```', ' ````', ' ```py', ' ``` '])
+            body = '\n'.join(ls)
         make, label, list_exposed, chain = place_block(rng)
         in_list = list_exposed
         if list_exposed:                   # F-C03-3: not generated on purpose
@@ -351,6 +384,10 @@ def gen_case(rng):
     else:
         body = block_body(rng)
         make, label, fence = place_fenced(rng, body)
+        if rng.random() < 0.12:                 # a code line made only of fence characters, LONGER than the fence: it does not close the block
+            ls = body.split('\n')
+            ls.insert(rng.randint(0, len(ls)), fence[0] * (len(fence) + rng.randint(1, 3)) + rng.choice(['', '', ' ']))
+            body = '\n'.join(ls); label += '/longer-fence-line'
         if closes_fence(body, fence): return None
     # with fenced_code on, no stray fence line may open earlier / later in the surroundings
     if fenced_on:
@@ -358,6 +395,13 @@ def gen_case(rng):
         if kind != 'fenced' and re.search(r'^(~{3,}|`{3,})', make(body), re.M): return None
     glue = '\n\n'
     if kind == 'fenced' and before and before[-1][0] == 'para' and rng.random() < 0.1: glue = '\n'; label += '/glued'
+    # directly under the last line of a raw HTML block, no blank line between (the extractor inserts the blank line itself; its
+    # `intail` mode must end with that line)
+    if kind == 'span' or (kind == 'block' and not chain and 'under-rule' not in label):
+        if rng.random() < 0.08: before.append(('raw', rng.choice(RAW_BLOCKS)))
+        if before and before[-1][0] == 'raw' and before[-1][1].startswith('<') and rng.random() < 0.6: glue = '\n'; label += '/glued-under-raw'
+    if real_fence:
+        after.append(('fenced', rng.choice(['```', '```', '````']).join(['', rng.choice(['', 'py']) + '\nreal *y* &lt; __z__\n', ''])))
     pre = docs.join(before, rng); post = docs.join(after, rng)
 
     def whole(b):
@@ -407,6 +451,24 @@ def classify(case, observed, required):
     return None
 
 
+INERT = 'QEZ'
+
+
+def explained_by_deleted_empty_endtag(case, T1, cache):
+    """F-C03-2 for the shapes the rewrite rule of `classify` cannot express (`</>` is the whole body or a whole line of it, so that a line or the
+    code construct itself disappears; only some of several `</>` are deleted; the deletion joins two backtick runs of a span, or a run and
+    the fence; the deletion happens AFTER input normalisation, so a line left with spaces only is not emptied; or it combines with another
+    known region).  Region predicate: the body contains `</>`, and the SAME case with every `</>` replaced by the inert word `QEZ` (document
+    and body alike) is fine or falls into a known region itself -- i.e. nothing but the presence of `</>` in the code makes it fail.
+    -> 'F-C03-2' or None"""
+    if case['kind'] == 'fenced' or '</>' not in case['body'] or INERT in case['doc']: return None
+    try:
+        st, d = evaluate(dict(case, body=case['body'].replace('</>', INERT), doc=case['doc'].replace('</>', INERT)), cache)
+    except Exception:
+        return None
+    return 'F-C03-2' if (st in ('ok', 'drift') or (st == 'viol' and d.get('finding'))) else None
+
+
 def evaluate(case, cache=None):
     """-> ('ok'|'skip'|'viol', detail dict)"""
     cache = {} if cache is None else cache
@@ -440,6 +502,7 @@ def evaluate(case, cache=None):
     if others_same and allowed(case['kind'], case['body'], obs):
         return 'drift', {'observed': repr(obs), 'law': repr(want)}
     finding = classify(case, obs, want) if others_same else None
+    if finding is None and '</>' in case['body']: finding = explained_by_deleted_empty_endtag(case, T1, cache)
     if finding is None and _LOOSE_COMMENT.search(case['doc']): finding = 'F-C03-4'
     if finding is None:
         k = ('probe',) + tuple(case['extensions'])
